@@ -231,7 +231,12 @@ fn ty_example(
                 let value = transformer.resolve(f.id)?;
                 fields.push(value)
             }
-            Ok(quote!(( #(#fields),* )))
+            if fields.len() == 1 {
+                // a 1-tuple needs its trailing comma, `(x)` is just a parenthesised expression
+                Ok(quote!(( #(#fields),* , )))
+            } else {
+                Ok(quote!(( #(#fields),* )))
+            }
         }
         scale_info::TypeDef::Primitive(def) => Ok(primitive_example(
             def,
